@@ -1,0 +1,74 @@
+//go:build verif
+// +build verif
+
+package decimal
+
+import "sync/atomic"
+
+// Verification hooks, compiled in with -tags verif only. They give an external
+// monitor (1) counters proving that rarely taken branches were reached,
+// (2) a callback at those sites (delay / fault injection) and (3) a callback on
+// the scratch-buffer pool (poisoning of buffers handed out and given back).
+
+// Hook sites.
+const (
+	VerifSiteDivAddBack    = verifSiteDivAddBack
+	VerifSiteDivQhatFix    = verifSiteDivQhatFix
+	VerifSiteDivRecFix1    = verifSiteDivRecFix1
+	VerifSiteDivRecFix2    = verifSiteDivRecFix2
+	VerifSiteDivRecursive  = verifSiteDivRecursive
+	VerifSiteKaratsuba     = verifSiteKaratsuba
+	VerifSiteKaratsubaNeg  = verifSiteKaratsubaNeg
+	VerifSiteKaratsubaSqr  = verifSiteKaratsubaSqr
+	VerifSiteBasicSqr      = verifSiteBasicSqr
+	VerifSiteRound         = verifSiteRound
+	VerifSiteRoundCarry    = verifSiteRoundCarry
+	VerifSiteRoundOverflow = verifSiteRoundOverflow
+	VerifSiteCancel        = verifSiteCancel
+	VerifSiteUnderflow     = verifSiteUnderflow
+	VerifSiteOverflow      = verifSiteOverflow
+	VerifSitePoolGet       = verifSitePoolGet
+	VerifSitePoolPut       = verifSitePoolPut
+	VerifNumSites          = verifNumSites
+)
+
+// VerifHits counts how often each site was reached.
+var VerifHits [VerifNumSites]uint64
+
+// VerifHitFn, if set, is called at every site after counting. It must only be
+// changed while no other goroutine uses the package.
+var VerifHitFn func(site int)
+
+// VerifPoolFn, if set, is called with each buffer taken from (put=false, after
+// sizing) or returned to (put=true) the scratch pool; it may overwrite the
+// buffer's words: their contents are unspecified at both moments.
+var VerifPoolFn func(buf []Word, put bool)
+
+func verifHit(site int) {
+	atomic.AddUint64(&VerifHits[site], 1)
+	if f := VerifHitFn; f != nil {
+		f(site)
+	}
+}
+
+func verifPoolGet(z *dec) {
+	verifHit(verifSitePoolGet)
+	if f := VerifPoolFn; f != nil {
+		f((*z)[:cap(*z)], false)
+	}
+}
+
+func verifPoolPut(z *dec) {
+	verifHit(verifSitePoolPut)
+	if f := VerifPoolFn; f != nil {
+		f((*z)[:cap(*z)], true)
+	}
+}
+
+// VerifResetHits zeroes the counters and returns their previous values.
+func VerifResetHits() (old [VerifNumSites]uint64) {
+	for i := range VerifHits {
+		old[i] = atomic.SwapUint64(&VerifHits[i], 0)
+	}
+	return
+}
